@@ -81,8 +81,12 @@ def probe_garbage(ctx, drv, scen, idx):
     s, _ = ctx.drive(drv, ["-mode", "path", "-scenario", scen, "-in", pp], name="c21-garbage-replay[scenario %s]" % scen)
     ex = s.get("extra", {})
     if not ex.get("reproduced"):
-        # the model allows it but the implementation did not follow: the edge replay decides conformance
-        raise InfraError("garbage counter-example of the model was not reproduced by hashdb: %s" % s.get("notes"))
+        # the behaviour is one of HashDB.tla, so a conforming implementation ends in the same state
+        ctx.violation("hashdb does not follow HashDB.tla on the behaviour %s: %s" % (
+            " ".join(a["op"] + str(a.get("v", a.get("r", a.get("limit", "")))) for a in c["acts"]), s.get("notes")),
+            {"kind": "behaviour", "driver": "c21-path", "scenario": scen, "acts": c["acts"], "final_model_state": c["final"],
+             "notes": s.get("notes"), "seed": ctx.seed, "tier": ctx.tier})
+        return
     garbage, persisted = ex.get("garbage", []), ex.get("garbage_all_persisted")
     desc = ("hashdb keeps node(s) %s cached although they are reachable only from released roots (after: %s)"
             % (garbage, " ".join(a["op"] + str(a.get("v", a.get("r", a.get("limit", "")))) for a in c["acts"])))
@@ -115,7 +119,9 @@ def run(ctx):
     if ctx.thorough:
         scens = scen_fixed + [-1, -2, -3]
     else:
-        scens = [scen_fixed[ctx.seed % len(scen_fixed)], -1]
+        # scenario 2 (storage toggled S -> S' -> S: re-delivered storage root and leaf) always, one more
+        # fixed pattern and one random history per seed
+        scens = [2, [0, 4, 1, 3][ctx.seed % 4], -1]
 
     def worlds():
         for i, sc in enumerate(scens):
@@ -125,7 +131,7 @@ def run(ctx):
     def traces():
         tp = os.path.join(ctx.scratch, "trace.ndjson")
         wp = os.path.join(ctx.scratch, "tworld.json")
-        s, _ = ctx.drive(drv, ["-mode", "record", "-trace", tp, "-world", wp, "-n", ctx.pick(12, 150), "-steps", ctx.pick(50, 120),
+        s, _ = ctx.drive(drv, ["-mode", "record", "-trace", tp, "-world", wp, "-n", ctx.pick(40, 300), "-steps", ctx.pick(80, 120),
                                "-cleans", ctx.pick(0, 1 << 20)], name="c21-record")
         if s.get("violations"):
             return
